@@ -278,6 +278,38 @@ func runC09(p *an.Prog, r *an.Run, tier string) {
 	}
 	r.Check(len(bad) == 0, "registered-is-caller", "(*pool.VipnodePool).connect", conn.Pos(), "remoteHosts[nodeID] = CtxService(ctx) and its reverse entry", "%s", strings.Join(dedup(bad), "; "))
 
+	// ---- count: the number of connected hosts is read off the registry itself (len of the forward map, under the
+	// mutex) — a separately maintained counter has to mirror every registry transition (first registration, reconnect
+	// on a new connection, stale close) and drifts on the ones it forgets
+	if nr := p.Method("pool", "VipnodePool", "NumRemotes"); nr != nil {
+		r.Analysed(an.FuncName(nr))
+		var cb []string
+		nRet := 0
+		an.AllInstrs(nr, func(in ssa.Instruction) {
+			ret, ok := in.(*ssa.Return)
+			if !ok || len(ret.Results) == 0 || (nr.Recover != nil && ret.Block() == nr.Recover) {
+				return
+			}
+			nRet++
+			v := an.RetResults(ret)[0]
+			for {
+				if cv, ok := v.(*ssa.Convert); ok {
+					v = cv.X
+					continue
+				}
+				break
+			}
+			m, isLen := an.LenOf(v)
+			if !isLen || memMapField(m) != "remoteHosts" {
+				cb = append(cb, "NumRemotes returns something other than len(remoteHosts) at "+p.Pos(ret.Pos())+": a counter kept beside the registry drifts on reconnects and stale closes")
+			}
+		})
+		if nRet == 0 {
+			cb = append(cb, "NumRemotes has no return")
+		}
+		r.Check(len(cb) == 0, "count", an.FuncName(nr), nr.Pos(), "the count is len(remoteHosts)", "%s", strings.Join(dedup(cb), "; "))
+	}
+
 	// ---- serve-returns: the pool learns that a connection is gone when Remote.Serve returns. Once the codec reports
 	// the failure Serve must return at once: nothing that can block (waiting for in-flight handlers, channel
 	// operations, I/O) may sit between the failed read and the return, deferred calls included.
